@@ -193,7 +193,16 @@ class CFG(object):
                     self._edge(st, x)
         elif isinstance(st, ast.With):
             if is_reraise_with(st):
-                b = self._seq(st.body, self._exc_targets(ctx), ctx)
+                tg = self._exc_targets(ctx)
+                b = self._seq(st.body, tg, ctx)
+                # leaving the block re-raises: those edges are exceptional
+                # (also when an enclosing try catches the re-raised error)
+                for sub in st.body:
+                    for a in ast.walk(sub):
+                        if isinstance(a, ast.stmt) and a in self.succ:
+                            for t in tg:
+                                if t in self.succ[a]:
+                                    self.exc_edges.add((a, t))
             else:
                 b = self._seq(st.body, follow, ctx)
             for x in b:
